@@ -496,7 +496,7 @@ pub fn run(ctx: &mut Ctx) -> Result<(), Violation> {
         ctx.stage(&format!("routes-all-functions-k{}", k), true, r)?;
     }
 
-    let cases = ctx.tier.pick(40_000, 600_000);
+    let cases = ctx.tier.pick(40_000, 3_000_000);
     let max_ops = ctx.tier.pick(40, 80);
     let r = par_random(ctx, "histories", cases, 400, |tape, st| {
         let mut t = Tape::new(tape);
@@ -506,7 +506,7 @@ pub fn run(ctx: &mut Ctx) -> Result<(), Violation> {
     });
     ctx.stage("random-histories-two-envs", false, r)?;
 
-    let cases = ctx.tier.pick(40_000, 600_000);
+    let cases = ctx.tier.pick(40_000, 3_000_000);
     let r = par_random(ctx, "cross-env-histories", cases, 400, |tape, st| {
         let mut t = Tape::new(tape);
         let opsv = ops::gen_ops(&mut t, max_ops);
